@@ -334,3 +334,30 @@ func ExpectNodeSubnets(m Mem, pools []PoolInfo, ranges [][][2]uint32) string {
 	}
 	return render(acc)
 }
+
+// LargeCase: ONE big topology for the limits of a LIST — a /22 pod subnet with a single range, n addresses of it
+// allocated (directly through AllocateSpecificIP, recorded as replayable ops but without a model comparison per step),
+// then the caller reloads / restarts.  Returns the session (Src = the replay) and the configuration.
+func LargeCase(n int) (*Session, Conf) {
+	s := NewSession()
+	base := uint32(10<<24 | 30<<16)
+	conf := Conf{{NodeSubnets: []string{"10.0.1.0/24"}, IPs: []string{IPStr(base+2) + "~" + IPStr(base+2+uint32(n)+9)},
+		Subnet: IPStr(base) + "/22", Gateway: IPStr(base + 1)}}
+	op := Op{Kind: "conf", Conf: conf, Plan: NoPlan()}
+	s.Src = append(s.Src, op.JSON())
+	s.W.Exec(op)
+	for i := 0; i < n; i++ {
+		a := Op{Kind: "aspec", Key: fmt.Sprintf("sts_ns1_big_big-%d", i), IP: base + 2 + uint32(i), Node: "n1", UID: "u1", Plan: NoPlan()}
+		s.Src = append(s.Src, a.JSON())
+		if err := s.W.Ipam.AllocateSpecificIP(a.Key, IPOf(a.IP), a.attr()); err != nil {
+			panic(err)
+		}
+	}
+	return s, conf
+}
+
+// ExecOnly runs a move on the session's world and records it for the replay, without lines for the model.
+func (s *Session) ExecOnly(op Op) Step {
+	s.Src = append(s.Src, op.JSON())
+	return s.W.Exec(op)
+}
